@@ -129,6 +129,9 @@ fn parse_color(word: &str) -> Result<Option<anstyle::Color>, ()> {
                 } else {
                     return Err(());
                 }
+            } else if word.starts_with('+') {
+                // `u8::from_str` accepts an explicit sign, git does not
+                return Err(());
             } else if let Ok(n) = word.parse::<u8>() {
                 Some(anstyle::Color::from(n))
             } else {
